@@ -1,7 +1,8 @@
 /-
 C11 — bridge between the regenerated body of the `substr` closure of the var/header postprocessor
 (`Gen.Locks.substrBody`, re-extracted from components/providers/scenario/http/postprocessor/var_header.go on every
-check) and the model's closed form `Model.C11.substrNorm`.
+check: the bounds of the slice the closure returns, as a function of its two captured integers and the length of its
+argument, statement by statement in SSA form) and the model's closed form `Model.C11.substrNorm`.
 
 The proof is extensional (`omega` after splitting the conditionals): it survives reordered independent statements and
 renamed locals, and breaks when the arithmetic changes. The two agree for every non-negative length — for a negative
@@ -18,12 +19,10 @@ theorem substrBody_eq (s e l : Int) (hl : 0 ≤ l) : Pandora.Gen.Locks.substrBod
   simp only [Pandora.Gen.Locks.substrBody, substrNorm, Prod.mk.injEq]
   constructor <;> (repeat' split) <;> omega
 
-/-- the closure body refers to exactly two captured integers and returns the slice of its argument between the first
-and the second (in order of declaration) — what `Model.C11.stepMod` does with the normalised bounds; the names of the
-variables do not matter -/
-theorem substr_shape :
-    Pandora.Gen.Locks.substrState.length = 2 ∧
-    Pandora.Gen.Locks.substrSlices = ":".intercalate Pandora.Gen.Locks.substrState := by decide
+/-- the closure body refers to exactly two captured integers (the parameters of `substrBody`, in order of declaration;
+their names do not matter); the pair `substrBody` returns is the pair of bounds of the slice expression the closure
+returns — what `Model.C11.stepMod` slices with -/
+theorem substr_shape : Pandora.Gen.Locks.substrState.length = 2 := by decide
 
 /-- the normalised bounds are a valid slice of a string of length `l`: `in[start:end]` cannot panic -/
 theorem substrNorm_in_bounds (s e l : Int) (hl : 0 ≤ l) :
